@@ -693,6 +693,15 @@ fn process_request_obj(request: &Request, dbs: &Arc<Databases>, client: &mut Cli
                     client,
                     &db_name,
                     &|db| {
+                        // resolve is the arbiter's answer to a conflict notice: only a database with
+                        // the arbiter strategy has any. Anywhere else it was a versioned write that
+                        // skipped the version rule (and could park the key for an arbiter that
+                        // does not exist, or beat every later write on a newer database)
+                        if db.metadata.consensus_strategy != ConsensuStrategy::Arbiter {
+                            return Response::Error {
+                                msg: String::from("resolve needs a database with the arbiter strategy"),
+                            };
+                        }
                         if dbs.is_primary() {
                             db.resolve_conflit(
                                 Change {
@@ -733,6 +742,11 @@ fn process_request_obj(request: &Request, dbs: &Arc<Databases>, client: &mut Cli
                     &client,
                     &key,
                     &|db| {
+                    if db.metadata.consensus_strategy != ConsensuStrategy::Arbiter {
+                        return Response::Error {
+                            msg: String::from("resolve needs a database with the arbiter strategy"),
+                        };
+                    }
                     if dbs.is_primary() {
                         db.resolve_conflit(
                             Change {
